@@ -27,6 +27,8 @@ SHAPES = ("plain", "refusing", "slow_transport", "fault_reconnect", "slow_receiv
 def shards(tier, seed):
     out = []
     for kind in simgw.KINDS:
+        # close() called from inside the status callback when the first loss is reported
+        out.append({"name": f"{kind}-fault_reconnect-close_on_disconnected", "kind": kind, "shape": "fault_reconnect", "scb": "close_on_disconnected", "tier": tier, "seed": seed})
         for shape in SHAPES:
             for scb in (("ok",) if tier == "quick" and shape not in ("plain", "slow_transport", "fault_reconnect", "send_write_error", "send_fault_read_silent", "double_close") else ("ok", "raise", "slow", "slow_connected", "slow_closed")):
                 out.append({"name": f"{kind}-{shape}-{scb}", "kind": kind, "shape": shape, "scb": scb, "tier": tier, "seed": seed})
